@@ -36,13 +36,33 @@ Facets
                documented unsupported (NotImplementedError -> unsupported).
 
 Labels: ``shuffle:<method>[&multi-stage][&on-index]:<view>:key-in-two-partitions[:na-key(<dtype kinds>)]`` /
-``...:rows-<kind>``; ``sort_values:<features>:<view>:key-order`` / ``:rows-within-equal-keys-<kind>`` / ``:rows-<kind>``;
-``set_index:<mode>:<features>:<view>:index-order`` / ``...``; ``drop_duplicates:<features>:keys-<kind>`` / ``:survivor-<kind>``;
-``unique|nunique:...``.  Exceptions ``<facet>:<features>:<ExcType>@file:function``.
+``...:rows-<kind>``.  ``sort_values:<mechanism feature>:<view>:key-order`` (first key column out of order) /
+``sort_values:multi-column...:<view>:secondary-key-order`` (first key right, later keys wrong) /
+``:rows-within-equal-keys-<kind>`` / ``:rows-<kind>``; the mechanism feature is, in this priority: first key is an
+unordered categorical with non-lexical category order; first key has NA and some input partition is all-NA; first key has NA
+and the non-NA values are already partition-sorted; first key has NA and na_position=first; else dtype kind of the first key
+(+ ``&na&na_position=last``, ``&descending``).  ``set_index:<mode | quantile-divisions>:<column kind>[&na-values][&all-NA-input-
+partition | &input-presorted-by-non-NA-values]:<view>:index-order`` / ``...``.  ``drop_duplicates:<frame|series>...:keys-<kind>``,
+``drop_duplicates:<tree-reduce | shuffle=tasks | shuffle=disk>:survivor``; ``unique|nunique:...``.
+Exceptions ``<facet>:<reduced features>:<ExcType>@file:function``.
 
 Calibration (unchanged tree)
 ----------------------------
-(see the end of this docstring; filled from the runs on the unchanged tree)
+* false alarm corrected: ``shuffle(on=<index>, ignore_index=True)`` drops the key (the index) from the output, the key sets
+  cannot be observed there -> only the row multiset (without index) is checked for that combination.
+* false alarm corrected: ``sort_values(ignore_index=True)`` gives partition-local labels in dask (pandas: one global
+  RangeIndex); no global index is promised -> with ``ignore_index=True`` rows are compared without the index.
+* generator restricted: ``drop_duplicates`` AFTER an explicit ``shuffle()`` is judged on the surviving keys only:
+  ``shuffle`` documents that it keeps no meaningful order, so which duplicate is "first" is undefined there.
+* generator restricted: ``set_index`` on a NON-numeric column holding nulls is documented as unsupported ("nulls ... which
+  Dask does not entirely support in the index", NotImplementedError hint) -> only float / Int64 columns carry NA into
+  ``set_index``; ``sorted=True`` is only generated on columns without NA ("really sorted" is undefined with nulls);
+  given ``divisions`` always cover min..max of the column (values outside are clamped into the last partition by design of
+  ``set_partitions_pre``) and must be python-sorted (an unordered categorical with non-lexical category order has no
+  valid vector -> rejected).
+* when the graph view of a sort/set_index already disagrees, the compute() view is not judged (same pipeline; avoids two
+  labels for one mechanism).
+* ``keep=False`` raises NotImplementedError by documentation -> unsupported.
 """
 from __future__ import annotations
 
@@ -620,6 +640,11 @@ def _set_index(case, ctx, pdf, ddf):
         if case.get("beyond") and _kindof(pdf[col].dtype) in ("int", "float", "Int64"):
             d = [d[0] - 2] + (d if rng.random() < 0.5 else d[1:])
             d = (d if rng.random() < 0.5 else d[:-1]) + [d[-1] + 3]
+        head = []
+        for v in d[:-1]:            # divisions must be unique except for the last element
+            if v not in head:
+                head.append(v)
+        d = head + [d[-1]]
         kw["divisions"] = [_norm_div(v) for v in d]
     try:
         exp = pdf.set_index(col, drop=case["drop"]).sort_index(kind="stable")
